@@ -41,10 +41,11 @@ ASSUMPTIONS = [
 MIN_COUNTERS = {
     'quick': {'programs_compared': 250, 'comparisons': 1200, 'failing_builds': 150,
               'residue_checks': 450, 'concurrent_builds': 200,
-              'concurrent_serialisations': 100},
+              'concurrent_serialisations': 100, 'shared_argument_cases': 100},
     'thorough': {'programs_compared': 40000, 'comparisons': 160000,
                  'failing_builds': 30000, 'residue_checks': 60000,
-                 'concurrent_builds': 40000, 'concurrent_serialisations': 1500},
+                 'concurrent_builds': 40000, 'concurrent_serialisations': 1500,
+                 'shared_argument_cases': 20000},
 }
 
 KINDS = ['c01', 'c01', 'plain', 'mc', 'wf', 'variants', 'c01', 'mc']
@@ -242,6 +243,8 @@ def run_shard(spec, acc):
         for i in idx:
             if rng.random() < 0.6:
                 failing_build(gg, ns, rng, seed, acc, main, 'sequential')
+            if rng.random() < 0.5:
+                shared_args_case(ns, rng, acc, 'sequential')
             out[str(i)] = build_one(gg, ns, gen(seed, i))
     elif kind == 'heavy':
         junk = heavy_use(rng)
@@ -345,6 +348,48 @@ def run_shard(spec, acc):
             acc.violation('C20/harness-thread-raised', {'tb': e})
     acc.extra['progs'] = out
     acc.case(h64((cfg['name'], len(out))), nontrivial=False)
+
+
+def shared_args_case(ns, rng, acc, where):
+    """Build arguments are inputs, not state: a `rates` list object handed to
+    one build (successful or failing) and then to the build of another function
+    gives that function the bytes it gets with a fresh, equal list."""
+    SynthDef = ns['SynthDef']
+
+    def mk(name, annots, fail=False):
+        params = ', '.join(f"p{i}{(': ' + repr(a)) if a else ''}=0.5"
+                           for i, a in enumerate(annots))
+        summ = ' + '.join(f'p{i}' for i in range(len(annots))) or '1'
+        src = (f"def {name}({params}):\n"
+               f"    Out.ar(0, SinOsc.ar(440) * ({summ}))\n"
+               + ("    raise ValueError('vf injected')\n" if fail else ''))
+        d = dict(ns)
+        exec(src, d)
+        return d[name]
+    na, nb = rng.randint(1, 5), rng.randint(1, 5)
+    ann_a = [rng.choice([None, 'ir', 'tr', 'ar', 'kr', 'ir', 'tr']) for _ in range(na)]
+    ann_b = [rng.choice([None, None, None, 'kr', 'ir']) for _ in range(nb)]
+    lags = [rng.choice([0, 0.1, 0.3, 0.5, None, 'kr']) for _ in range(rng.randint(1, 5))]
+    first_fails = rng.random() < 0.3
+    shared = list(lags)
+    try:
+        SynthDef('vfa', mk('vfa', ann_a, first_fails), rates=shared)
+    except Exception:
+        pass
+    out = []
+    for rates in (shared, list(lags)):
+        try:
+            out.append(hashlib.sha256(bytes(
+                SynthDef('vfb', mk('vfb', ann_b), rates=rates).as_bytes())).hexdigest())
+        except Exception as e:
+            out.append('raised ' + type(e).__name__)
+    acc.count('shared_argument_cases')
+    if out[0] != out[1]:
+        acc.violation('C20/bytes-differ/build-arguments-shared-with-an-earlier-build',
+                      {'first_annotations': ann_a, 'second_annotations': ann_b,
+                       'rates': lags, 'rates_object_after_first_build': repr(shared),
+                       'first_build_failed': first_fails, 'with_shared': out[0],
+                       'with_fresh': out[1], 'where': where})
 
 
 def serialise_phase(gg, seed, cfg, idx, acc, rng):
